@@ -5,6 +5,7 @@
   starting from a fresh handler in front of a device in any state (idle, or left streaming with
   channels enabled by a previous session); the device acknowledges every request.
 -/
+import NxsModel.Gen.CfgShape
 import NxsModel.Lifecycle
 import NxsModel.Lemmas.Lifecycle
 namespace Nxs.C09
@@ -68,6 +69,14 @@ theorem after_disconnect (d0 : Device) (started : Bool) (flags : Nat) (calls : L
 theorem connect_stops_stream (d0 : Device) (flags : Nat) (hd : WFDev d0) :
     (after d0 true flags [.connect]).devStarted = false :=
   c09_connect_stops_stream d0 flags hd
+
+/-- the life-cycle methods that `Lifecycle.lean` transcribes are present in the current source
+    (regenerated facts): connect (idempotence guard, comm.connect, fresh subscriber lists), disconnect
+    (stop stream, disable all + write, comm.disconnect), stream_start/stop (flag guards, request, thread) -/
+theorem source_shape :
+    Gen.CfgShape.connectShape = true ∧ Gen.CfgShape.disconnectShape = true ∧
+    Gen.CfgShape.streamStartStopShape = true ∧ Gen.CfgShape.channelsInitShape = true ∧
+    Gen.Comm.startCleansUp = true := by decide
 
 example : (after ⟨[false, true, false], [0, 5, 0]⟩ true 3
     [.streamStart, .connect, .connect, .chEnable [0] true, .streamStart, .sub 1, .disconnect]).dev
